@@ -19,10 +19,10 @@ func init() {
 		DesignRef: "DESIGN.md §5 C33",
 		Level: "Decides that every function the parser accepts has an implementation and vice versa, that the special function sets only name existing functions, that every aggregator item type is dispatched by one of the aggregation evaluators and that the scalar and vector binary-operator evaluators implement the same operator set, " +
 			"that evaluator.eval is only entered through Eval (which registers the panic-to-error recovery first), that slices go back to the shared pools only through the three helpers that truncate them, and that the series iterator the evaluator reuses across series re-initialises every one of its fields.",
-		Note:     "Trusted: go/packages, go/types, go/cfg; rule tables in checker/c33.go.",
-		Covers:   "parser.Functions, promql.FunctionCalls, AtModifierUnsafeFunctions/AnchoredSafeFunctions/SmoothedSafeFunctions, evaluator.aggregation/aggregationK/aggregationCountValues dispatch, scalarBinop/vectorElemBinop, evaluator.Eval/recover, fPointPool/hPointPool/matrixSelectorHPool, storageSeriesIterator.reset.",
-		NotCover: "absence of run-time faults inside the function implementations, numerical results, independence of concurrent queries beyond pool discipline.",
-		Run:      runC33,
+		Note:           "Trusted: go/packages, go/types, go/cfg; rule tables in checker/c33.go.",
+		Covers:         "parser.Functions, promql.FunctionCalls, AtModifierUnsafeFunctions/AnchoredSafeFunctions/SmoothedSafeFunctions, evaluator.aggregation/aggregationK/aggregationCountValues dispatch, scalarBinop/vectorElemBinop, evaluator.Eval/recover, fPointPool/hPointPool/matrixSelectorHPool, storageSeriesIterator.reset.",
+		NotCover:       "absence of run-time faults inside the function implementations, numerical results, independence of concurrent queries beyond pool discipline.",
+		Run:            runC33,
 		MinObligations: 14,
 	})
 }
